@@ -30,7 +30,7 @@ InitState(cfg, faults) ==
              hup |-> cfg.ws[i].hup]],
    fr |-> [f \in FrameIds |-> NoFrame], cur |-> <<>>, rq |-> <<>>, tm |-> {}, pnext |-> -1, pdue |-> 0,
    slot |-> "", stopping |-> FALSE, restarting |-> FALSE, exited |-> FALSE, creq |-> QuitReq,
-   faults |-> faults, blocked |-> 0, out |-> NoLine, lastobs |-> <<>>, cbpend |-> FALSE, nreq |-> 0,
+   faults |-> faults, blocked |-> 0, out |-> NoLine, lastobs |-> <<>>, cbpend |-> FALSE, pjit |-> FALSE, nreq |-> 0,
    booted |-> FALSE]
 
 \* ---- projection to the observable state / line format of Monitors.tla (times in ms)
@@ -105,6 +105,7 @@ Next ==
         \/ /\ Quiescent /\ s.booted
            /\ \/ \E t \in DueTimers(s) : Step(FireTimer(s, t))
               \/ s.pnext # -1 /\ s.pnext <= s.now /\ Step(FirePeriodic(s))
+              \/ CanPeriodicEarly(s) /\ Step(PeriodicEarly(s))
               \/ /\ HasDeadline(s) /\ DueTimers(s) = {} /\ ~(s.pnext # -1 /\ s.pnext <= s.now)
                  /\ NextDeadline(s) <= MaxNow /\ Step(Tick(s))
               \/ Step(EnvLine(s, Line("probe", "", 0, 0, "", "")))
